@@ -132,7 +132,7 @@ impl Property for C07 {
         ]
     }
     fn expected_probes(&self) -> Vec<&'static str> {
-        vec!["ula_read", "ula_write", "paging_write", "ay_select", "ay_data", "ay_read", "kempston_read", "mouse_read", "extender_read", "extender_write", "floating_border", "floating_fetch", "unclaimed_write", "multi_device_skipped", "paging_alias", "ay_alias", "ear_follows_tape", "floating_exact"]
+        vec!["ula_read", "ula_write", "paging_write", "ay_select", "ay_data", "ay_read", "kempston_read", "mouse_read", "extender_read", "extender_write", "floating_border", "floating_fetch", "unclaimed_write", "multi_device_skipped", "paging_alias", "ay_alias", "ear_follows_tape", "floating_exact", "extender_installed_late", "extender_replaced", "extender_claims_changed", "snapshot_loaded_midrun", "ula_same_value_again"]
     }
 
     fn gen(&self, rng: &mut Rng, _tier: Tier, _idx: u64) -> Scenario {
@@ -142,6 +142,10 @@ impl Property for C07 {
         sc.set("mouse", rng.bool() as i64);
         sc.set("extender", rng.chance(1, 3) as i64);
         sc.set("tape", rng.chance(1, 4) as i64);
+        // host actions in the middle of the access history: snapshot loads; extender installed late,
+        // replaced, or changing its claims
+        sc.set("snap_every", *rng.pick(&[0i64, 0, 25, 60]));
+        sc.set("ext_dyn", rng.chance(1, 2) as i64);
         sc.set("seed", (rng.next() >> 2) as i64);
         sc.set("n", if sc.get("tape") != 0 { 260 } else { 120 });
         sc
@@ -181,9 +185,13 @@ impl Property for C07 {
             }
         }
         e.verif_refresh_screen();
-        // extender
+        // extender: installed here, or (ext_dyn) only later in the history
         let mut claimed: Vec<u16> = vec![];
-        if sc.get("extender") != 0 {
+        let has_ext = sc.get("extender") != 0;
+        let ext_dyn = has_ext && sc.get("ext_dyn") != 0;
+        let mut ext_installed = false;
+        fn gen_claims(rng: &mut Rng) -> Vec<u16> {
+            let mut claimed = vec![];
             for _ in 0..rng.range(1, 6) {
                 claimed.push(match rng.below(6) {
                     0 => 0x7FFD,
@@ -194,8 +202,9 @@ impl Property for C07 {
                     _ => rng.u16(),
                 });
             }
-            e.set_io_extender(SimExtender { claimed: claimed.clone(), log: vec![], read_xor: rng.u8() });
+            claimed
         }
+        let ext_install_at = if ext_dyn && rng.bool() { rng.range(1, 60) } else { -1 };
         // a playing tape (pilot tone) in a share of runs: bit 6 of ULA reads must follow it
         let tape_playing = sc.get("tape") != 0;
         if tape_playing {
@@ -227,22 +236,112 @@ impl Property for C07 {
             e.send_mouse_pos_diff(rng.range(-100, 100) as i8, rng.range(-100, 100) as i8);
             e.send_mouse_button(MOUSE_BUTTONS[rng.below(4) as usize], true);
         }
-        // canonical reference values of the mouse ports (trusted addresses)
-        let (mb, mx, my) = if conf.mouse && !claimed.iter().any(|p| [0xFADF, 0xFBDF, 0xFFDF].contains(p)) {
-            (cpu_io(&mut e, 0xFADF, None)?, cpu_io(&mut e, 0xFBDF, None)?, cpu_io(&mut e, 0xFFDF, None)?)
-        } else {
-            (0, 0, 0)
-        };
-        let mouse_ref_ok = conf.mouse && !claimed.iter().any(|p| [0xFADF, 0xFBDF, 0xFFDF].contains(p));
+        // canonical reference values of the mouse ports (trusted addresses), read before any extender
+        // is installed
+        let (mb, mx, my) = if conf.mouse { (cpu_io(&mut e, 0xFADF, None)?, cpu_io(&mut e, 0xFBDF, None)?, cpu_io(&mut e, 0xFFDF, None)?) } else { (0, 0, 0) };
+        let mouse_ref_ok = conf.mouse;
+        if has_ext && ext_install_at < 0 {
+            claimed = gen_claims(&mut rng);
+            e.set_io_extender(SimExtender { claimed: claimed.clone(), log: vec![], read_xor: rng.u8() });
+            ext_installed = true;
+        }
         // instrument port for AY canary reads: canonical, or an alias the extender does not claim
-        let ayp = *[0xFFFDu16, 0xFEFD, 0xFDFD, 0xF7FD].iter().find(|p| !claimed.contains(p)).unwrap_or(&0xFBFD);
+        const AY_INSTR: [u16; 5] = [0xFFFD, 0xFEFD, 0xFDFD, 0xF7FD, 0xFBFD];
+        let pick_ayp = |claimed: &Vec<u16>| *AY_INSTR.iter().find(|p| !claimed.contains(p)).unwrap_or(&0xEFFD);
+        let mut ayp = pick_ayp(&claimed);
+        let mut last_port: u16 = 0x00FE;
+        let mut last_ula_v: Option<u8> = None;
+        let mut force_port: Option<(u16, Option<u8>)> = None;
+        let snap_every = sc.get("snap_every").clamp(0, 1000) as u64;
         let mut ay_regs = [0u8; 16];
         let mut ay_sel = 0usize;
         let mut border = e.border_color() as u8;
         let mut latch = 0u8;
         let mut ext_log_len = 0usize;
         let n = sc.get("n").clamp(0, 5000);
-        for _ in 0..n {
+        for idx in 0..n {
+            // ---- host actions between two accesses
+            if has_ext && ext_dyn {
+                let ev = if idx == ext_install_at { 0 } else if ext_installed { rng.below(24) } else { 99 };
+                match ev {
+                    0 | 1 => {
+                        // the extender is installed after the machine has been running, or replaced by another one
+                        ctx.probe(if ext_installed { "extender_replaced" } else { "extender_installed_late" });
+                        claimed = gen_claims(&mut rng);
+                        if rng.bool() && !AY_INSTR.contains(&last_port) {
+                            claimed.push(last_port);
+                        }
+                        e.set_io_extender(SimExtender { claimed: claimed.clone(), log: vec![], read_xor: rng.u8() });
+                        ext_installed = true;
+                        ext_log_len = 0;
+                        ayp = pick_ayp(&claimed);
+                        if rng.chance(3, 4) {
+                            force_port = Some((last_port, None));
+                        }
+                    }
+                    2 | 3 => {
+                        // the extender changes what it claims (e.g. enabled / disabled by its own control register)
+                        if !AY_INSTR.contains(&last_port) {
+                            ctx.probe("extender_claims_changed");
+                            if let Some(k) = claimed.iter().position(|p| *p == last_port) {
+                                claimed.retain(|p| *p != last_port);
+                                let _ = k;
+                            } else {
+                                claimed.push(last_port);
+                            }
+                            e.io_extender().unwrap().claimed = claimed.clone();
+                            if rng.chance(3, 4) {
+                                force_port = Some((last_port, None));
+                            }
+                        }
+                    }
+                    _ => {}
+                }
+            }
+            if snap_every > 0 && rng.below(snap_every) == 0 {
+                // the host loads a snapshot of the running machine (same memory, paging and stub) whose
+                // border differs from the last value written; the ULA must obey the next write whatever
+                // was written before the load
+                ctx.probe("snapshot_loaded_midrun");
+                let mut s = crate::snapfmt::SnapState::new(m128);
+                for b in 0..8u8 {
+                    if let Some(pg) = phys_page(m128, b) {
+                        s.banks[b as usize].copy_from_slice(e.verif_ram_page(pg));
+                    }
+                }
+                s.port_7ffd = latch;
+                s.border = match last_ula_v {
+                    Some(v) => (v & 7) ^ (1 + rng.below(7) as u8),
+                    None => rng.u8() & 7,
+                };
+                s.cpu.pc = 0x8000;
+                s.cpu.sp = 0x9000;
+                let bytes = if m128 { crate::snapfmt::write_sna128(&s) } else { crate::snapfmt::write_sna48(&s) };
+                e.load_snapshot(rustzx_core::host::Snapshot::Sna(SimAsset::plain(bytes))).map_err(|x| Fail::new("C07.load_snapshot", "", format!("{:?}", x)))?;
+                border = e.border_color() as u8;
+                if border != s.border {
+                    // C09's matter; keep the canary in step with the machine
+                    ctx.probe("snapshot_border_differs");
+                }
+                latch = e.verif_paging().0;
+                // inputs are host state, not snapshot state: present them again
+                for k in 0..40 {
+                    if keys[k] {
+                        e.send_key(KEYS[k], true);
+                    }
+                }
+                for k in 0..8 {
+                    if kemp & (1 << k) != 0 {
+                        e.send_kempston_key(KEMPSTON[k], true);
+                    }
+                }
+                ay_resync(&mut e, &mut ay_regs, &mut ay_sel, ayp);
+                if let (Some(v), true) = (last_ula_v, rng.chance(2, 3)) {
+                    // an even port that selects only the ULA, written with the same value as before the load
+                    let p = (rng.u16() & 0xFFFE) | 0x0002;
+                    force_port = Some((p, Some(v)));
+                }
+            }
             // stratified port: decode bits drawn independently, the rest uniform
             let mut port = rng.u16();
             for b in [0u32, 1, 5, 6, 7, 8, 10, 14, 15] {
@@ -262,8 +361,16 @@ impl Property for C07 {
                 }
                 _ => {}
             }
-            let write = rng.bool();
-            let v = rng.u8() & !0x20; // never lock paging
+            let mut write = rng.bool();
+            let mut v = rng.u8() & !0x20; // never lock paging
+            if let Some((p, fv)) = force_port.take() {
+                port = p;
+                if let Some(fv) = fv {
+                    write = true;
+                    v = fv;
+                }
+            }
+            last_port = port;
             // beam position
             let beam = rng.below(3);
             let t = match beam {
@@ -349,6 +456,10 @@ impl Property for C07 {
                     Some(Dev::Ula) => {
                         ctx.probe("ula_write");
                         border = v & 7;
+                        if last_ula_v == Some(v) {
+                            ctx.probe("ula_same_value_again");
+                        }
+                        last_ula_v = Some(v);
                     }
                     Some(Dev::Paging) => {
                         ctx.probe("paging_write");
